@@ -46,6 +46,16 @@ class LatticeInputHandler(InputHandler):
                 continue
             angle = random.uniform(0.0, 2.0 * math.pi)
             direction = [math.cos(angle), math.sin(angle)] + [0.0] * (dimension - 2)
+            if self._per_root > 2:
+                # a straight chain of point masses with spacing ``dipole_separation``, centred on the root position
+                root = Node(Particle(center))
+                for k in range(self._per_root):
+                    offset = (k - (self._per_root - 1) / 2.0) * self._dipole_separation
+                    position = [center[d] + offset * direction[d] for d in range(dimension)]
+                    setting.periodic_boundaries.correct_position(position)
+                    root.add_child(Node(Particle(position, {cv.charge_name: cv[k] for cv in self._charge_values})))
+                nodes.append(root)
+                continue
             half = self._dipole_separation / 2.0
             one = [center[d] + half * direction[d] for d in range(dimension)]
             two = [center[d] - half * direction[d] for d in range(dimension)]
